@@ -911,3 +911,7 @@ Proof.
   - apply (rejects_glued [97; 49] (mkMove 0 0 PlaceFlat None) [97; 49] (mkMove 0 0 PlaceFlat None));
       apply parse_denotes; reflexivity.
 Qed.
+
+(* the formatter's text denotes the move under the standard's reading *)
+Lemma format_denotes m : wf_move8 m -> ptn_denotes (format_move m) m.
+Proof. intros H. apply parse_denotes. apply parse_format_move. exact H. Qed.
